@@ -467,21 +467,28 @@ theorem string_literal_sound (s : String) (h : isGraphQLName s = true) :
 
 /-! ### OPEN — carried by K/O only
 
-* `C10_alias_exact` in closed form for objects / input objects / interfaces / unions / scalars:
-  `SchemaValid S → ∀ t T, Mem (Env.ofFile (schemaFile c S)) v (reference to T in namespace t) ↔ Ref c S t T v`.
-  PROVED now, on the generated file itself: identifiers of scalar texts resolve to nothing from every namespace
-  (`C10_scalar_idents_global`); the local name of every printed type resolves, inside its namespace, to exactly the
-  alias emitted for it and `Ctx.leaf` becomes the absolute reference to it (`C10_type_refs_resolve`); the end-to-end
-  closed form for ENUMS (`C10_alias_exact_enum_closed`); the body of every alias is exact for every interpretation of
-  its references (`C10_alias_exact_*`). STILL MISSING for the other kinds: (a) that `globalise` commutes with the body
-  constructions (`tsOf`, `objectBodyL`, …) so that the stored body is the body over absolute leaves; (b) the induction
-  on values that turns the per-body statements into the recursive `Ref`; (c) for scalars, that `globalise` leaves an
-  arbitrary parsed text unchanged when all its identifiers are unbound; (d) the qualified route `ns.T` / top-level
-  representative through `resolveQ` / `export type { a as b }`. The O stream evaluates exactly these closed forms on
-  the REAL files (every alias × every value of the abstract domain).
-* completeness of `memG` for sufficient fuel (`Mem e v t → ∃ n, memG e n v t = true`); soundness is proved.
-* `Ref_t` for scalars is the configured text read in the empty environment; that the namespace scope adds nothing
-  to it is the second half of rename soundness (same missing link).
+PROVED since (in `Props/C10Closed.lean`, proofs in `Lemmas/DeclsClosed*.lean`): `C10_alias_exact` in CLOSED form on the
+generated file itself for ALL kinds (`C10_alias_exact_closed`, per kind `…_scalar_closed` / `…_object_closed` /
+`…_input_closed` / `…_members_closed`, enums as before), the qualified route `<ns>.T` (`C10_alias_exact_qualified`), the
+top-level representative (`C10_alias_exact_toplevel`), the file linked as a module `M.<ns>.T` / `M.T` — the forms the O
+stream queries (`C10_alias_exact_module`, `_std`, `C10_alias_exact_module_toplevel`); and completeness of `memG`
+(`membership_procedure_complete` / `_exact`). Their hypothesis `DocOK` = checked schema + the side condition on scalar
+texts below.
+
+Still open:
+* the side condition on configured scalar texts (`DocOK.bagOK`): no identifier of a text starts with `__tmp_`
+  (`C10_rename_counterexample`, open finding `findings/C10-fresh-name-captured.json`) or is one of the printer's own
+  seven identifiers (`__nitrogql_schema`, `__Beautify`, `__SelectionSet`, the four namespace names — second corner,
+  kernel-checked `C10_namespace_capture_counterexample`: text `__OperationOutput.Foo`). Without it the full statement
+  is FALSE of the code; the corners are contrived (the user's text has to mention generated identifiers).
+* `DocOK.parses`: the parse of a scalar text is supplied by the harness (`tsparse::parse_type`; no TypeScript parser in
+  Lean); that it mentions only identifiers of the text and no internal `abs` node is assumed (K compares the trees).
+* (PROVED since, `Props/C10Closed.lean`: the closed form of the RESOLVERS file linked with the schema file —
+  `C10_resolver_args_closed` / `_std`: `Args` = `Ref_ResolverInput(args f)`; `C10_resolver_result_closed`: `Result` = the
+  resolver result reference, `Omit<…, "__typename">` through `stdHook` included; side conditions `ResolversOK`.) Still
+  open there: that `Resolvers[O][f]` IS `__Resolver<O, Args, Context, Result>` with these `Args` / `Result` is the
+  structural theorem `C10_resolvers_exact`; the generic helper types `__Resolver` / `__TypeResolver` themselves (function
+  types, kept as raw text) have no meaning in the value semantics.
 * the model-plugin transforms of the resolvers file ("minus plugin-excluded") are not modelled: the harness calls
   the printer without plugins.
 -/
